@@ -738,9 +738,12 @@ def part_from_matchfile(
             bar_start_divs = int(
                 round(divs * (bar_times[ts_bar] - offset))
             )  # in quarters
-            bar_start_divs = max(0, bar_start_divs)
         else:
-            bar_start_divs = 0
+            # no note in this measure: use the position in beats
+            bar_start_divs = int(
+                round(divs * (beats_to_quarters(ts_beat_time) - offset))
+            )
+        bar_start_divs = max(0, bar_start_divs)
         part.add(score.TimeSignature(ts_beats, ts_beat_type), bar_start_divs)
     # add key signatures
     for ks_beat_time, ks_bar, keys in mf.key_signatures:
@@ -748,9 +751,12 @@ def part_from_matchfile(
             bar_start_divs = int(
                 round(divs * (bar_times[ks_bar] - offset))
             )  # in quarters
-            bar_start_divs = max(0, bar_start_divs)
         else:
-            bar_start_divs = 0
+            # no note in this measure: use the position in beats
+            bar_start_divs = int(
+                round(divs * (beats_to_quarters(ks_beat_time) - offset))
+            )
+        bar_start_divs = max(0, bar_start_divs)
 
         # TODO
         # * use key estimation if there are multiple defined keys
